@@ -77,6 +77,9 @@ CASES = {
         ('# 12 "f.h"', ['# 12 "f.h"']), ('#line 3', ['#line 3']), ('  #  line 3 "x y"', ['  #  line 3 "x y"']), ('#12', ['#12']),
         ('\t#\t7 "a b"', ['\t#\t7 "a b"']), ('int x;\n# 5 "f"\nint y;', ['# 5 "f"']),
         ('#define X 1', []), ('#pragma pack(1)', []), ('#lineage', []), ('int x; # 3', []), ('#linex 3', [])]),
+    '_r_comment_or_line_directive': ('findall-span', [
+        ('a /* x\n#12 y */ b', ['/* x\n#12 y */']), ('# 12 "f/*.h"\nint /* c */ x;', ['# 12 "f/*.h"', '/* c */']), ('// x \\\n#line 3\nint', ['// x \\\n#line 3']),
+        ('#line 3\n#4 "g"', ['#line 3', '#4 "g"']), ('int x; # 3', []), ('#define X 1 // c', ['// c']), ('  #  line 3 "x//y"\nint', ['  #  line 3 "x//y"'])]),
     '_r_define': ('groups', [
         ('#define A 1', [('A', ' 1')]), ('  #  define   K    12   ', [('K', '    12   ')]), ('#define A 1 \\\n 2\nint x;', [('A', ' 1 \\\n 2')]),
         ('#define A', [('A', '')]), ('#defineX 1', []), ('x #define A 1', []), ('int x;\n#define B 0x10\nint y;', [('B', ' 0x10')]),
@@ -208,6 +211,184 @@ def p5(run, m, pats):
                'int%sx; reaches the parser as %r; the parser only skips space, tab and newline' % (repr(ch)[1:-1], got))
 
 
+def _emulate_collect(m, rx, text, already=()):
+    """PATTERN.sub(replace, text) of _remove_line_directives, with `replace` walked symbolically on every match"""
+    inner = m.find('_remove_line_directives.replace')
+    lst = tuple(already)
+    out, pos = [], 0
+    for mm in rx.finditer(text):
+        ev = sp.Evaluator({'m.group': lambda a, k, e, f, mm=mm: mm.group(*a)})
+        ps = ev.run(inner, {'markers': bool(already), 'already': len(already), 'line_directives': lst})
+        if len(ps) != 1 or not ps[0].outcome or ps[0].outcome[0] != 'return' or not isinstance(ps[0].outcome[1], str):
+            raise AnalysisError('_remove_line_directives.replace: not a single string return for the match %r' % mm.group())
+        lst = ps[0].env.get('line_directives')
+        out.append(text[pos:mm.start()])
+        out.append(ps[0].outcome[1])
+        pos = mm.end()
+    out.append(text[pos:])
+    return ''.join(out), lst
+
+
+def p3c(run, m, pats):
+    """the first collecting pass runs on text that still has its comments: it must not take anything inside a comment for a
+    directive (the comment would lose its end), and it must still take whole directive lines whose file name contains // or /*"""
+    fn = m.find('_remove_line_directives')
+    subs = [c for c in ast.walk(fn) if isinstance(c, ast.Call) and isinstance(c.func, ast.Attribute) and c.func.attr == 'sub' and u(c.func.value) in pats]
+    run.need(len(subs) == 1 and len(subs[0].args) == 2 and u(subs[0].args[0]) == 'replace', '_remove_line_directives: expected one PATTERN.sub(replace, csource)')
+    name = u(subs[0].func.value)
+    rx = pats[name]
+    for text, want_out, want_list, why in (
+            ('/* see issue\n #12 for details */\nint x;', None, (), 'a line of a block comment that starts with #<digits>'),
+            ('/* a\n#line 7 "f"\n b */ int x;', None, (), 'a line of a block comment that starts with #line'),
+            ('// c \\\n# 12 "f"\nint x;', None, (), 'the continuation line of a // comment'),
+            ('int a; // c\n# 5 "f"\nint b;', 'int a; // c\n#line@0\nint b;', ('# 5 "f"',), 'a directive after a line that ends in a comment'),
+            ('# 1 "a/*b.h"\nint a; /* c */', '#line@0\nint a; /* c */', ('# 1 "a/*b.h"',), 'a file name that contains /*'),
+            ('# 1 "http://x"\nint a;', '#line@0\nint a;', ('# 1 "http://x"',), 'a file name that contains //'),
+            ('/* a */\n# 3\n/* #4 */\n  #line 9 "g"', '/* a */\n#line@0\n/* #4 */\n#line@1', ('# 3', '  #line 9 "g"'), 'directives between comments'),
+            ('int x;\n#12\nint y;', 'int x;\n#line@0\nint y;', ('#12',), 'a plain directive')):
+        got = _emulate_collect(m, rx, text)
+        want = (text if want_out is None else want_out, want_list)
+        run.ob('P3/collecting-pass-skips-comments-and-takes-whole-directive-lines', '_remove_line_directives', '%s: %r' % (why, text), got == want, m.where(subs[0]),
+               'with %s the text becomes %r and the list %r; expected %r, %r' % (name, got[0], got[1], want[0], want[1]))
+
+
+def p7(run, m, pats):
+    """_common_type_names() sees the text with the directives put back: the words of a directive (its file name) must not count"""
+    fn = m.find('_common_type_names')
+    loops = [n for n in ast.walk(fn) if isinstance(n, ast.For) and isinstance(n.iter, ast.Call) and u(n.iter.func).endswith('.findall')]
+    run.need(len(loops) == 1 and len(loops[0].iter.args) == 1 and isinstance(loops[0].iter.args[0], ast.Name), '_common_type_names: the loop over the words of the source not found')
+    var = loops[0].iter.args[0].id
+    defs = [st for st in fn.body if isinstance(st, ast.Assign) and len(st.targets) == 1 and u(st.targets[0]) == var and st.lineno < loops[0].lineno]
+    ok, detail = False, 'the words are taken from the parameter as it is: `# 1 "typedef.h"` or `# 1 "a(b.h"` changes which common types count as used'
+    if defs:
+        v = defs[-1].value
+        if isinstance(v, ast.Call) and isinstance(v.func, ast.Attribute) and v.func.attr == 'sub' and u(v.func.value) in pats and len(v.args) == 2 and \
+                isinstance(v.args[0], ast.Constant) and isinstance(v.args[0].value, str) and u(v.args[1]) in (var, 'csource'):
+            rx = pats[u(v.func.value)]
+            rep = v.args[0].value
+            left = [rx.sub(rep, t) for t in ('# 1 "typedef.h"', '#line 5 "size_t(.h"', '  # 12 "a,b;c.h"')]
+            ok = all(not re.search(r'[\w();,]', x) for x in left) and re.findall(r'\w+|\S', rx.sub(rep, 'typedef int size_t;\n# 1 "x.h"\nint f(size_t);')) == re.findall(r'\w+|\S', 'typedef int size_t; int f(size_t);')
+            detail = 'after %s the directive lines still contribute %r' % (u(v), left)
+        else:
+            detail = 'the text scanned is %s: not recognised as the source without its directive lines' % u(v)
+    run.ob('P7/words-of-line-directives-are-not-uses-of-types', '_common_type_names', 'for word in %s' % u(loops[0].iter), ok, m.where(loops[0]), detail)
+
+
+def _gap_samples(pat, flags):
+    """from the regex AST: (pieces, gaps) lists; a piece is literal text, a gap is the index of a piece that stands for \\s* or \\s+ between two tokens"""
+    import re._parser as sre
+    from re._constants import LITERAL, IN, MAX_REPEAT, MIN_REPEAT, SUBPATTERN, BRANCH, AT, ANY, CATEGORY, CATEGORY_SPACE, NOT_LITERAL, RANGE, NEGATE
+
+    def is_space_class(av):
+        return len(av) == 1 and av[0][0] == CATEGORY and av[0][1] == CATEGORY_SPACE
+
+    def expand(seq):
+        """-> list of alternatives; an alternative is a list of ('t', text) / ('g',)"""
+        alts = [[]]
+        for op, av in seq:
+            if op == LITERAL:
+                new = [[('t', chr(av))]]
+            elif op == NOT_LITERAL:
+                new = [[('t', 'i')]]
+            elif op == ANY:
+                new = [[('t', 'i')], [('t', '{')]]
+            elif op == AT:
+                new = [[]]
+            elif op == IN:
+                if is_space_class(av):
+                    new = [[('g',)]]
+                else:
+                    ch = None
+                    for o2, a2 in av:
+                        if o2 == LITERAL:
+                            ch = chr(a2)
+                            break
+                        if o2 == RANGE:
+                            ch = chr(a2[0])
+                            break
+                    if ch is None:
+                        raise AnalysisError('regex sample: character class %r not handled' % (av,))
+                    new = [[('t', ch)]]
+            elif op in (MAX_REPEAT, MIN_REPEAT):
+                lo, hi, sub = av
+                subs = expand(list(sub))
+                if all(len(a) == 1 and a[0] == ('g',) for a in subs):
+                    new = [[('g',)]]
+                else:
+                    new = subs if lo <= 1 else [a * lo for a in subs]
+            elif op == SUBPATTERN:
+                new = expand(list(av[3]))
+            elif op == BRANCH:
+                new = []
+                for b in av[1]:
+                    new.extend(expand(list(b)))
+            else:
+                raise AnalysisError('regex sample: construct %s not handled' % (op,))
+            alts = [a + b for a in alts for b in new]
+            if len(alts) > 64:
+                alts = alts[:64]
+        return alts
+    return expand(list(sre.parse(pat, flags)))
+
+
+def p6(run, m, pats):
+    """between the collecting passes and put-back, each directive is a line `#line@N` in the text.  A rewrite whose pattern allows white space
+    between two tokens must allow such a line there too, or a directive inserted between these tokens changes the outcome"""
+    users = {}
+    for fname in ('_preprocess', '_preprocess_extern_python'):
+        fn = m.find(fname)
+        for c in ast.walk(fn):
+            if isinstance(c, ast.Call) and isinstance(c.func, ast.Attribute) and c.func.attr in ('sub', 'search', 'finditer', 'findall', 'match') and u(c.func.value) in pats:
+                users.setdefault(u(c.func.value), fname)
+    skip = {'_r_comment': 'runs on the text of comments', '_r_define': 'a #define is one logical line: no directive can stand inside it',
+            '_r_other_whitespace': 'single characters', '_r_line_directive': 'the directives themselves', '_r_comment_or_line_directive': 'the directives themselves'}
+    n = 0
+    for name in sorted(users):
+        if name in skip:
+            continue
+        rx = pats[name]
+        seen = set()
+        for alt in _gap_samples(rx.pattern, rx.flags):
+            texts = [x[1] if x[0] == 't' else None for x in alt]
+            gaps = [i for i, x in enumerate(texts) if x is None]
+            def build(fill):
+                return ''.join(t if t is not None else fill.get(i, '\n') for i, t in enumerate(texts))
+            clean = build({})
+            mm = rx.search(' ' + clean + ' ')
+            if mm is None or mm.group() != clean:
+                continue            # not a faithful sample of this alternative (look-around context): no verdict from it
+            for gi in gaps:
+                before = ''.join(t or '' for t in texts[:gi])
+                after = ''.join(t or '' for t in texts[gi + 1:])
+                if before.count('"') % 2 == 1 or not before or not after:
+                    continue        # inside a string literal / not between two tokens
+                lt = re.findall(r'\.\.\.|\w+|\S', before)[-1]
+                rt = re.findall(r'\.\.\.|\w+|\S', after)[0]
+                key = '%s | %s' % (lt, rt)
+                tk = r'\.\.\.|\w+|\S'
+                shape = (len(re.findall(tk, before)), len(re.findall(tk, after)), gaps.index(gi))
+                if shape in seen:
+                    continue            # the same gap of the pattern, reached through another keyword alternative
+                seen.add(shape)
+                var = build({gi: '\n#line@0\n'})
+                mv = rx.search(' ' + var + ' ')
+                ok = mv is not None and mv.group() == var
+                n += 1
+                run.ob('P6/rewrites-see-a-directive-line-as-white-space', '%s (%s)' % (name, users[name]), 'between %s' % key, ok, 'src/cffi/cparser.py',
+                       '%r is rewritten, %r is not (matched: %r): the same cdef with a `# N "file"` line between these two tokens fails to parse' % (clean, var, mv.group() if mv else None))
+    run.need(n >= 8, 'P6: fewer token gaps than confirmed by hand (%d)' % n)
+
+
+def p4b(run, pats):
+    """backslash-newline is allowed between any two tokens of a #define line, not only inside the value"""
+    rx = pats['_r_define']
+    for text, where in (('#define \\\n A 5', 'define | NAME'), ('# \\\n define A 5', '# | define'), ('#define A \\\n 5', 'NAME | value'), ('#define A 5 \\\n', 'value | end')):
+        got = [mm.groups() for mm in rx.finditer(text + '\nint x;')]
+        ok = len(got) == 1 and got[0][0] == 'A' and got[0][1].replace('\\\n', '').strip() == '5'
+        run.ob('P4/continuation-allowed-between-any-two-tokens-of-a-define', '_r_define', 'between %s' % where, ok, 'src/cffi/cparser.py',
+               '%r is read as %r: the line is not recognised as `#define A 5`' % (text, got))
+
+
 def check(run):
     run.technique = ('pipeline rules on the pre-parser: symbolic walk of the replacement helpers (Python ast, nothing of cffi executed), '
                      'denotation of the pattern constants on class representatives (standard re engine on constants read from the ast), '
@@ -218,11 +399,15 @@ def check(run):
     p2(run, m, pats)
     p3(run, m, pats)
     p3b(run, m)
+    p3c(run, m, pats)
+    p6(run, m, pats)
+    p7(run, m, pats)
+    p4b(run, pats)
     p4(run, m)
     p5(run, m, pats)
     run.assume('pycparser skips exactly space, tab and newline between tokens (its hand-written lexer is a dependency, not analysed); '
                'cdef sources contain no string literals outside line directives (documented restriction of cffi)')
     run.assume('decided: what the three patterns denote on the listed classes, what replaces a comment, the order of the rewrites and the white-space '
                'normalisation; not decided: byte-identity of emit_c_code() for every insertion (that quantifies over all texts)')
-    for rule, k in (('P1', 5), ('P2', 30), ('P3', 13), ('P4', 6), ('P5', 6)):
+    for rule, k in (('P1', 5), ('P2', 30), ('P3', 21), ('P4', 10), ('P5', 6), ('P6', 8), ('P7', 1)):
         run.min_instances(rule, k)
